@@ -9,6 +9,17 @@ from harness import detloop, simnet
 TYPE_OF = None
 
 
+EXC_CLASSES = [RuntimeError, ValueError, KeyError, ConnectionResetError, BrokenPipeError, ConnectionRefusedError, OSError, TimeoutError, ZeroDivisionError]
+_exc_counter = [0]
+
+
+def scripted_exc(msg='scripted', salt=0):
+    """application code fails with exceptions of many families (connection errors of a downstream call included): containment must not
+    depend on the class. The class is a function of the scenario so far (reset per EngineRun), so a replay raises the same ones."""
+    _exc_counter[0] += 1
+    return EXC_CLASSES[(_exc_counter[0] * 4 + salt) % len(EXC_CLASSES)](msg)
+
+
 def tags_to_bytes(tags):
     return bytes(tags)
 
@@ -211,24 +222,24 @@ def make_handler_class():
         async def on_setup(self, data_encoding, metadata_encoding, payload):
             self.H.out('HC:SETUP:%s' % tstr(bytes_to_tags(payload.data)))
             if self._beh() == 'x':
-                raise RuntimeError('scripted: on_setup raises')
+                raise scripted_exc('scripted: on_setup raises')
 
         async def on_metadata_push(self, metadata):
             self.H.out('HC:METADATA_PUSH:%s' % tstr(bytes_to_tags(metadata.metadata)))
             if self._beh() == 'x':
-                raise RuntimeError('scripted')
+                raise scripted_exc(salt=self.H.current_sid or 0)
 
         async def request_fire_and_forget(self, payload):
             self.H.out('HC:REQUEST_FNF:%s' % tstr(bytes_to_tags(payload.data)))
             if self._beh() == 'x':
-                raise RuntimeError('scripted')
+                raise scripted_exc(salt=self.H.current_sid or 0)
 
         async def request_response(self, payload):
             H = self.H
             H.out('HC:REQUEST_RESPONSE:%s' % tstr(bytes_to_tags(payload.data)))
             b = self._beh()
             if not b.startswith('f'):
-                raise RuntimeError('scripted')
+                raise scripted_exc(salt=self.H.current_sid or 0)
             fut = H.loop.create_future()
             if b.startswith('fr.'):
                 tags = [int(x) for x in b[3:].split(',')] if b[3:] != '-' else []
@@ -245,7 +256,7 @@ def make_handler_class():
             H = self.H
             H.out('HC:REQUEST_STREAM:%s' % tstr(bytes_to_tags(payload.data)))
             if self._beh() != 'pb':
-                raise RuntimeError('scripted')
+                raise scripted_exc(salt=self.H.current_sid or 0)
             pub = RecPublisher(H)
             if H.current_sid != 0:
                 pub.oid = H.new_obj('stResp', H.current_sid, pub=pub)
@@ -257,7 +268,7 @@ def make_handler_class():
             H.out('HC:REQUEST_CHANNEL:%s' % tstr(bytes_to_tags(payload.data)))
             b = self._beh()
             if not b.startswith('ch'):
-                raise RuntimeError('scripted')
+                raise scripted_exc(salt=self.H.current_sid or 0)
             pub = RecPublisher(H) if b[2] == '1' else None
             sub = RecSubscriber(H) if b[3] == '1' else None
             if H.current_sid != 0:
@@ -294,6 +305,7 @@ class EngineRun:
     """Executes a script (list of groups of stimuli) against a real endpoint and produces the entry-point log."""
 
     def __init__(self, loop, role, lease_publisher=False, fragment=None):
+        _exc_counter[0] = 0
         self.loop, self.role = loop, role
         self.glog = []            # ('M', marker) / ('O', token)
         self.objs = []            # oid -> dict
